@@ -141,6 +141,26 @@ def readString (r : BufRd) (delim : UInt8) : Bytes × GoErr × BufRd :=
   if pre.length < r.rest.length then (pre ++ [delim], GoErr.nil, { r with rest := r.rest.drop (pre.length + 1) })
   else (r.rest, endErr r.ending, { r with rest := [] })
 
+/-- `*bufio.Reader` as far as `ReadByte`/`UnreadByte` go: the byte that `UnreadByte` would put back (the last
+byte read, if the last operation was a successful read), the bytes not yet read, how the source ends. -/
+structure ByteRd where
+  last : Option UInt8
+  rest : Bytes
+  ending : Ending
+  deriving Repr, DecidableEq
+
+/-- `r.ReadByte()` -/
+def readByte (r : ByteRd) : UInt8 × GoErr × ByteRd :=
+  match r.rest with
+  | b :: t => (b, GoErr.nil, { r with last := some b, rest := t })
+  | [] => (0, endErr r.ending, { r with last := none })
+
+/-- `r.UnreadByte()` with its error ignored: puts the last byte back if the last operation read one. -/
+def unreadByte (r : ByteRd) : ByteRd :=
+  match r.last with
+  | some b => { r with last := none, rest := b :: r.rest }
+  | none => r
+
 /-- `strings.TrimSuffix`. -/
 def trimSuffix (s suffix : Bytes) : Bytes :=
   if suffix.isSuffixOf s then s.take (s.length - suffix.length) else s
